@@ -25,6 +25,15 @@ def cloneHierarchyB (s s' : G) (w' : Uid) (sel roots : List Uid) : Bool :=
      | none => s'.parent c == some w')) &&
   s'.children w' == roots.filterMap (cloneOf n sel) && s'.hidden w' && s'.owner w' == some w'
 
+/-- the root selection is unambiguous: no repeated root, no root below another root (for a nested selection the
+    inner root cannot be both a child of its parent's copy and a root of the new WBS; the statement's "same hierarchy"
+    is only defined for independent roots) -/
+def rootsIndependentB (s : G) (roots : List Uid) : Bool :=
+  nodupB roots && roots.all (fun r => roots.all (fun q => r == q ||
+    match descF s.children s.fuel q with
+    | some d => !d.contains r
+    | none => false))
+
 /-- links: between two selected tasks they are copied (as sets), to non-selected members of the source they are
     dropped, to tasks outside the source WBS they stay attached to those same tasks -/
 def cloneLinksB (s s' : G) (w : Uid) (sel : List Uid) : Bool :=
